@@ -41,8 +41,17 @@ fn op_at<'a>(f: &'a Function, l: &Loc) -> Option<&'a Operation> {
 /// scalars read at a location (instruction operands or edge guard)
 fn reads_at(f: &Function, l: &Loc) -> Vec<Scalar> {
     match l {
-        Loc::Instruction(..) => op_at(f, l).and_then(|o| o.scalars_read()).map(|v| v.into_iter().cloned().collect()).unwrap_or_default(),
-        Loc::Edge(h, t) => f.edge(*h, *t).ok().and_then(|e| e.condition()).map(|c| c.scalars().into_iter().cloned().collect()).unwrap_or_default(),
+        Loc::Instruction(..) => op_at(f, l).map(crate::refeval::op_reads).unwrap_or_default(),
+        Loc::Edge(h, t) => f
+            .edge(*h, *t)
+            .ok()
+            .and_then(|e| e.condition())
+            .map(|c| {
+                let mut v = Vec::new();
+                crate::refeval::expr_scalars(c, &mut v);
+                v
+            })
+            .unwrap_or_default(),
         Loc::EmptyBlock(_) => vec![],
     }
 }
